@@ -275,6 +275,8 @@ class Engine:
             return v[1]
         if v[0] == "refv":
             return ("val", v[1], ())
+        if v[0] in ("str", "mem"):
+            return ("val", v, ())
         return ("ext", v, ())
 
     def read_loc(self, state, loc):
@@ -1388,6 +1390,8 @@ def m_write_fmt(eng, st, args, info):
 
 def m_write_str(eng, st, args, info):
     s = args[1]
+    if s[0] in ("ref", "refv"):
+        s = eng.deref_value(st, s)
     st.trace.append(("emit", "lit", s[1]) if s[0] == "str" else ("emit", "str", s))
     return [(st, OK_UNIT)]
 
